@@ -170,6 +170,9 @@ def run(prog, tier):
     ok, why = False, ""
     try:
         sg, isg = src["self.sigma"], src["self.inv_sigma"]
+        # built in a local first and stored afterwards: the local's own definition
+        sg = src.get(sg.id, sg) if isinstance(sg, ast.Name) else sg
+        isg = src.get(isg.id, isg) if isinstance(isg, ast.Name) else isg
         if all(isinstance(v, ast.Call) and U(v.func) == "diag" and len(v.args) == 1 for v in (sg, isg)):
             a = sx.eval(sg.args[0], {"y_err": R.sym("y_err")})
             b = sx.eval(isg.args[0], {"y_err": R.sym("y_err")})
